@@ -9432,6 +9432,9 @@ def aten_squeeze(self: TTensor) -> TTensor:
 def aten_squeeze_dim(self: TTensor, dim: int) -> TTensor:
     if len(self.shape) == 0:
         return op.Identity(self)
+    if isinstance(self.shape[dim], int) and self.shape[dim] != 1:
+        # PyTorch leaves a dimension of size != 1 alone; ONNX Squeeze would reject it
+        return op.Identity(self)
     return op.Squeeze(self, [dim])
 
 
